@@ -5,6 +5,8 @@ use serde_json::{json, Value};
 
 use crate::case::*;
 use crate::engine::*;
+use crate::faults::*;
+use crate::exec::FaultPlan;
 use crate::gen::*;
 use crate::interp::{Finding, Opts};
 use crate::runner::*;
@@ -144,6 +146,7 @@ pub fn report_seq(e: &SeqEval<'_>, case: &SeqCase, r: &RunResult, want_sample: b
 		invalid: false,
 		sample: if want_sample && nontrivial { Some(sample_seq(case, r)) } else { None },
 		replay,
+		..Default::default()
 	}
 }
 
@@ -191,6 +194,7 @@ pub fn eval_conc_case(e: &ConcEval<'_>, case: &ConcCase, want_sample: bool) -> C
 		invalid: false,
 		sample: if want_sample && nontrivial { Some(sample_conc(case, &r)) } else { None },
 		replay,
+		..Default::default()
 	}
 }
 
@@ -243,6 +247,9 @@ pub fn run_check(prop: &str, tier: Tier, seed: u64) -> i32 {
 		"C06" => c06(tier, seed),
 		"C13" => c13(tier, seed),
 		"C17" => c17(tier, seed),
+		"C01" => c01(tier, seed),
+		"C09" => c09(tier, seed),
+		"C12" => c12(tier, seed),
 		"C02" => c02(tier, seed),
 		"C08" => c08(tier, seed),
 		"C10" => c10(tier, seed),
@@ -483,6 +490,11 @@ pub fn replay(path: &str) -> i32 {
 				println!("  {l}");
 			}
 			let mut f = mine(&prop, &r);
+			if prop == "C12" {
+				let api = c["c12"]["api"].as_str().unwrap_or("?").to_string();
+				let kind = c["c12"]["kind"].as_str().unwrap_or("?").to_string();
+				f.extend(c12_findings(&case, &api, &kind, &r));
+			}
 			f.extend(post_findings(&prop, &AnyCase::Seq(case), &r));
 			f
 		}
@@ -813,4 +825,160 @@ fn sem_len(sem: &Sem, world: &WorldSpec, t: TargetRef) -> usize {
 		TargetRef::Coll(c) if c < world.colls.len() => sem.flats[c].pos.len(),
 		_ => 0,
 	}
+}
+
+
+fn c01(tier: Tier, seed: u64) -> i32 {
+	let mut ctx = CheckCtx::new("C01", "exploration", tier, seed);
+	ctx.rule = "CONC: programs of 1-4 logical threads (each an OS thread, one running at a time), 1-3 acquisitions each over a pool of 2-6 targets (single locks; boxed / ref / owned / retrying collections over permutations and subsets of 2-5 shared leaves, nesting <= 2, Poisonable wrappers), read and write, guard / try / scoped APIs, yields inside sections, both RwLock wake policies; the schedule is generated data (choice bytes, then run-to-block). Oracle: no state in which every unfinished thread waits (deadlock), no thread waits for a lock it holds itself, no no-progress cycle; every execution ends with all threads finished and all locks free. Tiny programs are additionally explored over ALL schedules. Non-trivial = some thread found its blocking request ungrantable (it waited) or a retrying acquisition rolled back; distinct = hash(world, programs, choices taken).".into();
+	let cfg = ConcCfg { min_threads: 1, ..ConcCfg::default() };
+	let nontrivial = |_case: &ConcCase, r: &RunResult| r.waited || has(r, "rollback");
+	let e = ConcEval { prop: "C01", nontrivial: &nontrivial, extra: None };
+	let n = tier.pick(60_000, 2_000_000);
+	ctx.search("conc-programs-x-schedules", n, 260, |bytes, want| {
+		let case = gen_conc(&mut Src::new(bytes), &cfg);
+		eval_conc_case(&e, &case, want)
+	});
+	ctx.require_label("conc.waited", 1000);
+	ctx.require_label("conc.writer_pref", 1000);
+	ctx.require_label("world.kind.Retry", 1000);
+	ctx.finish()
+}
+
+fn c09(tier: Tier, seed: u64) -> i32 {
+	let mut ctx = CheckCtx::new("C09", "exploration", tier, seed);
+	ctx.rule = "CONC: thread 0 acquires a retrying collection (1-4 members, read/write, any arrangement, guard and scoped APIs, possibly containing owned groups and nested collections) while 1-3 other threads hold or acquire overlapping leaves singly or through any other kind; random schedule prefix, then run-to-block. Oracle: whenever a thread whose current top-level call is on a retrying collection has a pending blocking request that is not grantable, it holds no lock outside the owned group of the awaited lock; the acquisition completes with exactly its leaves held (C04 oracle) and the execution terminates. Non-trivial = the retrying thread rolled back at least once (a try failed after >= 1 member was held); distinct = hash(world, programs, choices taken).".into();
+	let mut cfg = ConcCfg::default();
+	cfg.retry_first = true;
+	cfg.world.kinds = vec![];
+	cfg.world.min_colls = 2;
+	cfg.p_try = 20;
+	let nontrivial = |case: &ConcCase, r: &RunResult| retry_rolled_back(case, r);
+	let extra = |_case: &ConcCase, r: &RunResult| -> Vec<Finding> {
+		// completion: a stuck execution whose retrying call never returned
+		r.findings
+			.iter()
+			.filter(|f| f.prop == "C01" && (f.sig == "deadlock" || f.sig == "no-progress-cycle"))
+			.map(|f| Finding { prop: "C09", sig: format!("does-not-complete|{}", f.sig), ..f.clone() })
+			.chain(r.findings.iter().filter(|f| f.prop == "C04" && f.sig.contains("Retry")).map(|f| Finding { prop: "C09", ..f.clone() }))
+			.collect()
+	};
+	let e = ConcEval { prop: "C09", nontrivial: &nontrivial, extra: Some(&extra) };
+	let n = tier.pick(60_000, 2_000_000);
+	ctx.search("conc-retrying-vs-contenders", n, 260, |bytes, want| {
+		let case = gen_conc(&mut Src::new(bytes), &cfg);
+		let mut rep = eval_conc_case(&e, &case, want);
+		if rep.nontrivial {
+			rep.labels.push("retry.rolled_back".into());
+		}
+		rep
+	});
+	ctx.require_label("retry.rolled_back", 500);
+	ctx.finish()
+}
+
+/// did a retrying acquisition release members it had taken because another member was busy?
+fn retry_rolled_back(case: &ConcCase, r: &RunResult) -> bool {
+	// frames on retrying targets: a failed try followed by a release inside the same frame
+	for f in &r.frames {
+		if !f.label.contains(":Retry<") && !f.label.contains(":PRetry<") {
+			continue;
+		}
+		let evs: Vec<&crate::exec::Event> = r.events.iter().filter(|e| e.frame == f.id).collect();
+		let mut held = 0i32;
+		for e in evs {
+			match (e.op.is_acquire(), e.out) {
+				(true, crate::exec::Outcome::Ok | crate::exec::Outcome::OkWaited) => held += 1,
+				(true, crate::exec::Outcome::Fail) => {
+					if held >= 1 {
+						return true;
+					}
+				}
+				(false, crate::exec::Outcome::Ok) => held -= 1,
+				_ => {}
+			}
+		}
+	}
+	let _ = case;
+	false
+}
+
+
+fn c12(tier: Tier, seed: u64) -> i32 {
+	let mut ctx = CheckCtx::new("C12", "fault_enumeration", tier, seed);
+	ctx.rule = "Base cases decoded from proptest byte vectors: world (all kinds, Mutex and RwLock leaves, nesting, by-value and by-reference) x target x {write, read} x {lock, try_lock, scoped_lock, scoped_try_lock, guard drop, unlock fn} x pre-held pattern (phantom read/write holders). Each base case is run fault-free to count the raw operations n of the chosen call, then re-run with a one-shot panic at EVERY raw-operation index 0..n-1, and with 2 persistent per-(lock, operation-class) fault sets (as tests/evil_*.rs) placed on member locks. Oracle on the trace of the faulted call: the panic reaches the caller; no release of a lock the caller does not hold; nothing but a lock whose own release panicked stays held; afterwards try_* on the faulted lock fails and a blocking acquisition panics. Non-trivial = the fault index is neither the first nor the last operation and another lock was held at the fault; distinct = hash(base case, fault plan). evaluations counts every faulted execution.".into();
+	ctx.assumptions.push("fault model: a faulted raw operation has no effect on the lock state (like the repository's evil_* locks)".into());
+	let n = tier.pick(12_000, 400_000);
+	ctx.search("seq-fault-enumeration", n, 160, |bytes, want| {
+		let mut src = Src::new(bytes);
+		let base = gen_c12_base(&mut src);
+		let (nops, r0) = count_ops(&base);
+		if r0.invalid.is_some() {
+			return CaseReport { invalid: true, ..Default::default() };
+		}
+		let mut rep = CaseReport { fp: fp_str(&format!("{:?}", base.case)), ..Default::default() };
+		let mut labels: std::collections::BTreeSet<String> = case_labels(&base.case.world, &r0).into_iter().collect();
+		labels.insert(format!("c12.api.{}", base.api));
+		labels.insert(format!("c12.kind.{}", base.kind));
+		let mut plans: Vec<FaultPlan> = (0..nops.min(60)).map(|i| FaultPlan { one_shot: Some(i), persistent: vec![] }).collect();
+		// persistent fault sets on member locks
+		let sem = Sem::new(&base.case.world);
+		let tflat = match base.case.steps[base.fault_step].1.clone() {
+			Step::Acquire { target, .. } | Step::Scoped { target, .. } => sem.target_flat(target).leaves(),
+			_ => match base.case.steps.iter().find_map(|(_, s)| if let Step::Acquire { target, .. } = s { Some(*target) } else { None }) {
+				Some(t) => sem.target_flat(t).leaves(),
+				None => vec![],
+			},
+		};
+		if !tflat.is_empty() && nops > 0 {
+			for _ in 0..2 {
+				let l = tflat[src.pick(tflat.len())];
+				let mask = match src.pick(5) {
+					0 => crate::exec::Op::Lock.bit() | crate::exec::Op::LockSh.bit() | crate::exec::Op::Unlock.bit() | crate::exec::Op::UnlockSh.bit(),
+					1 => crate::exec::Op::TryLock.bit() | crate::exec::Op::TryLockSh.bit() | crate::exec::Op::Unlock.bit() | crate::exec::Op::UnlockSh.bit(),
+					2 => crate::exec::Op::Unlock.bit() | crate::exec::Op::UnlockSh.bit(),
+					3 => 0x3f,
+					_ => crate::exec::Op::TryLock.bit() | crate::exec::Op::TryLockSh.bit(),
+				};
+				plans.push(FaultPlan { one_shot: None, persistent: vec![(l, mask)] });
+			}
+		}
+		for plan in plans {
+			let case = with_fault(&base, plan);
+			let r = run_seq(&case, FAULT_OPTS);
+			rep.extra_evals += 1;
+			let mut f = c12_findings(&case, &base.api, &base.kind, &r);
+			f.extend(r.findings.iter().filter(|f| f.prop == "C12" || f.prop == "PANIC").cloned());
+			if let Some((_, _, op, _)) = r.fault_fired.first() {
+				labels.insert(format!("c12.fault.{}", op.short()));
+				if !case.fault.as_ref().unwrap().plan.persistent.is_empty() {
+					labels.insert("c12.persistent_fired".into());
+				}
+			}
+			if r.labels.contains_key("probed_faulted_lock") {
+				labels.insert("c12.probed".into());
+			}
+			if c12_nontrivial(&case, &r, nops) {
+				rep.extra_nontrivial.push(fp_str(&format!("{case:?}")));
+				if want && rep.sample.is_none() {
+					rep.sample = Some(sample_seq(&case, &r));
+					rep.nontrivial = true;
+				}
+			}
+			if !f.is_empty() && rep.replay.is_none() {
+				rep.replay = Some(json!({"engine": "seq", "opts": opts_json(&FAULT_OPTS), "case": case, "trace": r.trace, "world": describe_world(&case.world), "c12": {"api": base.api, "kind": base.kind}}));
+			}
+			rep.violations.extend(f);
+			if let Some(i) = r.inconclusive {
+				rep.inconclusive = Some(i);
+			}
+		}
+		rep.labels = labels.into_iter().collect();
+		rep
+	});
+	ctx.require_label("c12.fault.unlock", 500);
+	ctx.require_label("c12.fault.try", 500);
+	ctx.require_label("c12.fault.lock", 500);
+	ctx.require_label("c12.persistent_fired", 300);
+	ctx.finish()
 }
